@@ -1,1 +1,2 @@
 import MpdSpec.Names
+import MpdSpec.Tokenizer
